@@ -13,7 +13,7 @@ quantifier), identifiers are pairwise distinct (the macro rejects duplicates). F
 import os, random
 
 ROOT = os.path.dirname(os.path.dirname(os.path.dirname(os.path.abspath(__file__))))
-N_RANDOM = 42
+N_RANDOM = 89
 IDENTS = ['a', 'b', 'c', 'd', 'e', 'user', 'x1', 'zz', 'B', '_u']
 NAMES = ['z', 'A', '0', 'user.name', 'é', '', '{x}', 'b b', 'mm', 'aa', '日本', 'Z', 'a.b', '~']
 STRS = ['x', '', 'é', '7', 'a b']
